@@ -7,6 +7,7 @@ import (
 	"errors"
 	"fmt"
 	"os"
+	"runtime"
 	"strconv"
 	"strings"
 	"sync"
@@ -708,6 +709,72 @@ func TestC06FileTeardown(t *testing.T) {
 		o.Count("file-run-iterations", kit.Bucket(started.Load()))
 		o.Case("cleanups_once_ok", []string{kit.Ints([]int64{1}), kit.Ints([]int64{1}), kit.I(max(atTeardown.Load(), 0) + unfinished)}, "T", "file-teardown", "nt")
 	}
+}
+
+// A config file's users stage is interrupted at the very moment it comes up (the interrupt is
+// sent as soon as the stage's parameter shows in the environment, while hundreds of users are
+// still being started): no iteration starts after the setup cleanups have run or the run returned.
+func TestC06StageComingUp(t *testing.T) {
+	o := kit.Get()
+	defer o.Close()
+	r := kit.NewRand(kit.Seed() + 70)
+	dir := t.TempDir()
+	late, attempts := int64(0), kit.N(15, 80)
+	for i := 0; i < attempts; i++ {
+		var tornDown, returned atomic.Bool
+		var afterTeardown, afterReturn atomic.Int64
+		key := "VERIF_C06_STAGE_UP"
+		scenario := func(st *f1testing.T) f1testing.RunFn {
+			st.Cleanup(func() { tornDown.Store(true) })
+			return func(*f1testing.T) {
+				if tornDown.Load() {
+					afterTeardown.Add(1)
+				}
+				if returned.Load() {
+					afterReturn.Add(1)
+				}
+			}
+		}
+		users := int(kit.Pick(r, 300, 1000, 2000))
+		yaml := "scenario: verifscenario\ndefault:\n  jitter: 0\n  distribution: none\n" +
+			"limits:\n  max-duration: 5s\n  concurrency: 4\n  max-iterations: 0\n  ignore-dropped: true\nstages:\n" +
+			"  - duration: 1s\n    mode: users\n    concurrency: " + strconv.Itoa(users) + "\n    parameters:\n      " + key + ": \"1\"\n"
+		path := dir + "/c06up_" + strconv.Itoa(i) + ".yaml"
+		_ = os.WriteFile(path, []byte(yaml), 0o600)
+		ctx, cancel := context.WithCancel(context.Background())
+		stopWatch := make(chan struct{})
+		go func() {
+			for {
+				select {
+				case <-stopWatch:
+					return
+				default:
+				}
+				if os.Getenv(key) != "" {
+					cancel()
+					return
+				}
+				runtime.Gosched()
+			}
+		}()
+		_, hung, dump := runkit.DoTimeout(runkit.Config{Mode: "file", FileArg: path, Scenario: scenario, Ctx: ctx, Opts: options.RunOptions{}}, 60*time.Second)
+		returned.Store(true)
+		close(stopWatch)
+		cancel()
+		if hung {
+			o.Fail("run-hung", "file run interrupted while its users stage came up did not return: "+dump[:min(len(dump), 2000)])
+			continue
+		}
+		time.Sleep(30 * time.Millisecond)
+		if n := afterTeardown.Load() + afterReturn.Load(); n > 0 {
+			late += n
+			if late == n {
+				o.Fail("iterations-after-teardown", fmt.Sprintf("config file with a users stage of %d users, interrupted as the stage came up (attempt %d): %d iteration(s) started after the setup cleanups had run, %d after Run.Do had returned", users, i+1, afterTeardown.Load(), afterReturn.Load()))
+			}
+		}
+	}
+	o.Count("stage", "interrupted while coming up")
+	o.Case("cleanups_once_ok", []string{kit.Ints([]int64{1}), kit.Ints([]int64{1}), kit.I(late)}, "T", "stage-coming-up", "nt")
 }
 
 // A run interrupted while its setup is still executing (and taking longer than the completion
